@@ -214,12 +214,19 @@ def to_sv(kind, obj_or_vec, level):
     return np.array(obj_or_vec, dtype=float).copy()
 
 
+def config_of(o):
+    """the receiver's public configuration (the routines under test are queries: they must leave it alone)"""
+    return (o.is_physicality_required, o.is_estimation_object, o.on_para_eq_constraint, o.on_algo_eq_constraint,
+            o.on_algo_ineq_constraint, o.mode_proj_order, o.eps_proj_physical)
+
+
 def impl_run(case, c, hist=True, order=None, level=None):
     """one call of the routine under test; returns a Run with the history as float arrays"""
     kind, m, para, eps, mi = case["kind"], case["m"], case["para"], case["eps"], case["max_iter"]
     order = order or case["order"]; level = level or case["level"]
     o = build(kind, c, case["sv"], m, para, order, eps)
     R = Run(); R.o = o; R.order = order; R.level = level
+    R.cfg_before = config_of(o)
     buf = io.StringIO()
     var = None
     kwf = {} if mi == "default" else {"max_iteration": mi}
@@ -231,6 +238,8 @@ def impl_run(case, c, hist=True, order=None, level=None):
             res = o.calc_proj_physical_with_var(var, on_para_eq_constraint=para, is_iteration_history=hist, **kwf)
     R.warned = "exceeds the limit" in buf.getvalue()
     R.var_after = None if var is None else np.array(var, dtype=float)
+    R.self_after = np.array(o.to_stacked_vector(), dtype=float)
+    R.cfg_after = config_of(o)
     if hist:
         R.result, h = res
         R.X = [to_sv(kind, v, level) for v in h["x"]]
@@ -355,9 +364,15 @@ def chk_run(ctx, case):
     in_band = any(e is not None and abs(e - eps) <= max(BAND * eps, 10 * utol(e)) for e in R.errs)
 
     # ---- history shape, initial record, returned point
+    shapes_ok = all(v is not None and v.shape == (n,) for v in R.X + R.P + R.Q + R.Y[1:])
     if R.hist_lens != (K + 1, K + 1, K + 1, K + 1, K) or R.Y[0] is not None or (K >= 1 and R.errs[0] is not None) \
-            or np.abs(R.P[0]).max() != 0 or np.abs(R.Q[0]).max() != 0 or any(e is None for e in R.errs[1:]):
-        ctx.violation(sub, site, "history-shape", "history lengths %s, y[0]=%s, errs[0]=%s" % (R.hist_lens, R.Y[0] is None, R.errs[:1]), case)
+            or not shapes_ok or np.abs(R.P[0]).max() != 0 or np.abs(R.Q[0]).max() != 0 or any(e is None for e in R.errs[1:]):
+        ctx.violation(sub, site, "history-shape", "history lengths %s, y[0] is None: %s, errs[0]=%s, every later entry a vector of length %d: %s, p[0]=q[0]=0: %s"
+                      % (R.hist_lens, R.Y[0] is None, R.errs[:1], n, shapes_ok, shapes_ok and np.abs(R.P[0]).max() == 0 and np.abs(R.Q[0]).max() == 0), case)
+        return
+    neg = [k for k in range(1, K) if not (R.errs[k] >= 0)]
+    if neg:
+        ctx.violation(sub, site, "error-value", "sweep %d: recorded error_value %r is not a non-negative number (a sum of squares)" % (neg[0], R.errs[neg[0]]), dict(case, sweep=neg[0]))
         return
     if case["level"] == "obj" or not para:
         x0_expect = np.array(case["sv"], dtype=float)
@@ -375,6 +390,10 @@ def chk_run(ctx, case):
             ctx.violation(sub, site, "mutates-argument", "the variable array passed in was modified", case)
     if not same:
         ctx.violation(sub, site, "returned-not-last-history-x", "returned point differs from the last history x", case)
+    if case["level"] == "obj" and not np.array_equal(R.self_after, np.array(case["sv"], dtype=float)):
+        ctx.violation(sub, site, "mutates-receiver", "the object the routine was called on changed (max diff %.3e)" % np.abs(R.self_after - np.array(case["sv"], dtype=float)).max(), case)
+    if R.cfg_after != R.cfg_before:
+        ctx.violation(sub, site, "mutates-receiver", "the configuration of the object the routine was called on changed: %s -> %s" % (R.cfg_before, R.cfg_after), case)
 
     # ---- every sweep, float level: sweep equations, invariant, recorded error values (vectorised; tolerance = rounding)
     X = np.array(R.X); P = np.array(R.P); Q = np.array(R.Q); Y = np.array(R.Y[1:])
@@ -577,12 +596,14 @@ def sub_run(ctx):
         for level in ("obj", "var"):
             for order in ("eq_ineq", "ineq_eq"):
                 cases.append(gen_case(ctx, systems, level=level, order=order, kind=kind, heavy_ok=not ctx.quick))
-    for _ in range(ctx.n(70, 900)):
+    for _ in range(ctx.n(70, 600)):
         cases.append(gen_case(ctx, systems, heavy_ok=not ctx.quick))
     # fuel edge cases: 0 (error branch), 1 (no test at all), 2, 3 and a fuel that is hit exactly
     for mi in (0, 1, 2, 3, 5):
-        for _ in range(ctx.n(2, 8)):
-            cases.append(gen_case(ctx, SYSTEMS_QUICK, mi=mi, gen="near:0.1"))
+        for level in ("obj", "var"):
+            for order in (("eq_ineq",) if mi == 0 else ("eq_ineq", "ineq_eq")):
+                for _ in range(ctx.n(1, 3)):
+                    cases.append(gen_case(ctx, SYSTEMS_QUICK, mi=mi, gen="near:0.1", level=level, order=order))
     ctx.sample("run", dict(cases[0], sv=cases[0]["sv"][:4] + ["..."]))
     ctx.run_cases("run", chk_run, cases)
     st = ctx.__dict__.get("c05_stats")
@@ -657,7 +678,7 @@ def sub_agree(ctx):
     cases = []
     for kind in KINDS:
         cases.append(gen_case(ctx, SYSTEMS_QUICK, kind=kind, gen="near:0.01"))
-    for _ in range(ctx.n(14, 150)):
+    for _ in range(ctx.n(14, 100)):
         cs = gen_case(ctx, systems, heavy_ok=not ctx.quick)
         cases.append(cs)
     ctx.sample("agree", dict(cases[0], sv=cases[0]["sv"][:4] + ["..."]))
